@@ -155,10 +155,11 @@ def laws(ivs, times, rng, budget):
     # the order of tiered times is the order of their tier tuples, whatever the magnitudes; a smaller delay of full cutoff
     # never yields the later arrival
     BIG = [0, 1, 2, 255, 256, 1023, 1024, 1025, 65535, 65536, 2 ** 31 - 1, 2 ** 31, 2 ** 63, 2 ** 64 + 1]
-    for L in (1, 2, 3):
+    for L in (1, 2, 3, 4, 5, 6):        # (also longer than the exhaustive scope: three and more nested groups)
         for _ in range(max(200, budget // 10)):
-            a = tuple(rng.choice(BIG) for _ in range(L)); b = tuple(rng.choice(BIG) for _ in range(L))
-            if rng.random() < 0.3: b = a[:-1] + (rng.choice(BIG),)
+            vals_ = BIG if rng.random() < 0.5 else [0, 1, 2, 3]
+            a = tuple(rng.choice(vals_) for _ in range(L)); b = tuple(rng.choice(vals_) for _ in range(L))
+            if rng.random() < 0.4: b = a[:-1] + (rng.choice(vals_),)
             n += 1
             r = py(lambda: (TT(*a) < TT(*b), TT(*a) == TT(*b), TT(*a) > TT(*b), TT(*a) <= TT(*b), TT(*a) >= TT(*b)))
             want = (a < b, a == b, a > b, a <= b, a >= b)
@@ -169,7 +170,7 @@ def laws(ivs, times, rng, budget):
             if q == 'assert' or tuple(map(bool, q)) != want[:3]:
                 record('trichotomy', a=[L, L, a], b=[L, L, b], observed=f'delays with tiers {a} and {b}: (<, ==, >) = {q}, the tier tuples give {want[:3]}'); continue
             if want[0]:
-                t = tuple(rng.choice(BIG) for _ in range(L))
+                t = tuple(rng.choice(vals_) for _ in range(L))
                 x = py(lambda: (TT(*t) + A, TT(*t) + B))
                 if x == 'assert' or x[0] > x[1] or not (x[0] < x[1]):
                     record('smaller_delay_never_later', a=[L, L, a], b=[L, L, b], t=t, observed=str(x))
